@@ -156,6 +156,28 @@ def option_fuzz(torch):
                         STATS['option_fuzz_raised'] += 1
                     guard(torch, before, '%s(%s)' % (name, ', '.join('%s=%r' % (k, kw[k]) for k in kw)))
         STATS['option_fuzz_options'] += len(names)
+    # the table loaders are public functions with options of their own: every option x values of every kind x every shipped table
+    try:
+        import os, glob
+        from pytorch_wavelets.dtcwt import coeffs
+        tables = sorted(os.path.splitext(os.path.basename(f))[0] for f in glob.glob(os.path.join(os.path.dirname(coeffs.__file__), 'data', '*.npz')))
+        for fname in ('biort', 'qshift', 'level1'):
+            fn = getattr(coeffs, fname, None)
+            if fn is None:
+                continue
+            params = [q for q in inspect.signature(fn).parameters.values() if q.kind in (q.POSITIONAL_OR_KEYWORD, q.KEYWORD_ONLY)][1:]
+            for q in params:
+                for v in (None, True, False, 0, 1, 'no_such_value'):
+                    for t in tables:
+                        before = process_state(torch)
+                        try:
+                            fn(t, **{q.name: v})
+                            STATS['loader_fuzz_returned'] += 1
+                        except Exception:
+                            STATS['loader_fuzz_raised'] += 1
+                        guard(torch, before, '%s(%r, %s=%r)' % (fname, t, q.name, v))
+    except Exception:
+        STATS['loader_fuzz_failed'] += 1
 
 
 # ---------------------------------------------------------------------------
